@@ -202,6 +202,23 @@ type c12Cell struct {
 	scheme  string
 }
 
+// custom: none | dialtls | handshake | fp (SetTLSFingerprintChrome) | fp>handshake | handshake>fp |
+// fp>dialtls — the setters in that order on one client. The LAST handshake setter governs the
+// TCP stacks; a DialTLS function takes precedence over any handshake function.
+func (c c12Cell) hasCustom() bool { return c.custom != "none" }
+
+// modelDial / modelHS: Options.DialTLSContext / Options.TLSHandshakeContext non-nil.
+func (c c12Cell) modelDial() bool { return c.custom == "dialtls" || c.custom == "fp>dialtls" }
+func (c c12Cell) modelHS() bool {
+	return c.custom == "handshake" || c.custom == "fp" || c.custom == "fp>handshake" || c.custom == "handshake>fp" || c.custom == "fp>dialtls"
+}
+
+// customGoverns: the lane's own dial/handshake function (own trust) decides on the TCP stacks;
+// else (none, fp, handshake>fp) the client's tls.Config does.
+func (c c12Cell) customGoverns() bool {
+	return c.custom == "dialtls" || c.custom == "handshake" || c.custom == "fp>handshake" || c.custom == "fp>dialtls"
+}
+
 func (c c12Cell) String() string {
 	s := fmt.Sprintf("force=%s h3on=%v offer=%s tls=%s how=%s kind=%s", c.force, c.h3on, c.offer, c.tls.name, c.how, c.kind)
 	if c.custom != "none" {
@@ -235,13 +252,16 @@ func c12AllCells() []c12Cell {
 				}
 				for _, how := range c12Hows {
 					for _, kind := range []string{"fresh", "clone", "changed", "changed-same"} {
-						for _, custom := range []string{"none", "dialtls", "handshake"} {
+						for _, custom := range []string{"none", "dialtls", "handshake", "fp", "fp>handshake", "handshake>fp", "fp>dialtls"} {
 							if kind == "changed-same" && custom != "none" {
 								continue
 							}
-							if custom != "none" && (tc.mtls || force == "3" || tc.insecure || tc.serverName != "" ||
+							fp := strings.Contains(custom, "fp")
+							if custom != "none" && (tc.mtls || force == "3" || (tc.insecure && (!fp || tc.roots != "")) || tc.serverName != "" ||
 								!(how == "helpers-string" || how == "SetTLSClientConfig")) {
-								continue // the custom functions bypass the client's TLS settings: a reduced TLS dimension suffices
+								// the custom functions bypass the client's TLS settings, the uTLS fingerprint
+								// handshake reads roots / InsecureSkipVerify only: a reduced TLS dimension suffices
+								continue
 							}
 							h3ons := []bool{false}
 							if force == "-" && custom == "none" {
@@ -253,6 +273,11 @@ func c12AllCells() []c12Cell {
 								}
 								cell := c12Cell{force: force, h3on: h3on, offer: offer, tls: tc, how: how, kind: kind, custom: custom, scheme: "https"}
 								if custom == "none" {
+									out = append(out, cell)
+									continue
+								}
+								if custom == "fp" {
+									cell.cTrust, cell.cProtos = "-", "-"
 									out = append(out, cell)
 									continue
 								}
@@ -325,11 +350,45 @@ func c12ForceApply(c *Client, force string) {
 }
 
 type c12CustomRec struct {
-	mu     sync.Mutex
+	mu        sync.Mutex
+	customRan bool // the lane's own handshake function (not the fingerprint one) ran
 	called bool
 	failed bool
 	proto  string
 	mutual bool
+}
+
+func (r *c12CustomRec) ranCustom() bool {
+	r.mu.Lock()
+	defer r.mu.Unlock()
+	return r.customRan
+}
+
+func (r *c12CustomRec) wasCalled() bool {
+	r.mu.Lock()
+	defer r.mu.Unlock()
+	return r.called
+}
+
+// c12WrapHandshake wraps whatever handshake function the (final) client carries with a recorder
+// of its outcome (negotiated protocol). In-package field access: no setter side effects.
+func c12WrapHandshake(c *Client, rec *c12CustomRec) {
+	t := c.GetTransport()
+	inner := t.TLSHandshakeContext
+	if inner == nil {
+		return
+	}
+	t.TLSHandshakeContext = func(ctx context.Context, addr string, plain net.Conn) (net.Conn, *tls.ConnectionState, error) {
+		conn, st, err := inner(ctx, addr, plain)
+		rec.mu.Lock()
+		rec.called = true
+		rec.failed = err != nil
+		if err == nil && st != nil {
+			rec.proto, rec.mutual = st.NegotiatedProtocol, st.NegotiatedProtocolIsMutual
+		}
+		rec.mu.Unlock()
+		return conn, st, err
+	}
 }
 
 func (r *c12CustomRec) failedNow() bool {
@@ -379,29 +438,43 @@ func c12InstallCustom(c *Client, cell c12Cell, rec *c12CustomRec) {
 			rec.proto, rec.mutual = st.NegotiatedProtocol, st.NegotiatedProtocolIsMutual
 		}
 	}
+	dialFn := func(ctx context.Context, network, addr string) (net.Conn, error) {
+		d := &tls.Dialer{Config: ccfg}
+		conn, err := d.DialContext(ctx, network, addr)
+		if err != nil {
+			record(nil, err)
+			return nil, err
+		}
+		record(conn.(*tls.Conn), nil)
+		return conn, nil
+	}
+	hsFn := func(ctx context.Context, addr string, plain net.Conn) (net.Conn, *tls.ConnectionState, error) {
+		rec.mu.Lock()
+		rec.customRan = true
+		rec.mu.Unlock()
+		tc := tls.Client(plain, ccfg)
+		if err := tc.HandshakeContext(ctx); err != nil {
+			return nil, nil, err
+		}
+		st := tc.ConnectionState()
+		return tc, &st, nil
+	}
 	switch cell.custom {
 	case "dialtls":
-		c.SetDialTLS(func(ctx context.Context, network, addr string) (net.Conn, error) {
-			d := &tls.Dialer{Config: ccfg}
-			conn, err := d.DialContext(ctx, network, addr)
-			if err != nil {
-				record(nil, err)
-				return nil, err
-			}
-			record(conn.(*tls.Conn), nil)
-			return conn, nil
-		})
+		c.SetDialTLS(dialFn)
 	case "handshake":
-		c.SetTLSHandshake(func(ctx context.Context, addr string, plain net.Conn) (net.Conn, *tls.ConnectionState, error) {
-			tc := tls.Client(plain, ccfg)
-			if err := tc.HandshakeContext(ctx); err != nil {
-				record(nil, err)
-				return nil, nil, err
-			}
-			record(tc, nil)
-			st := tc.ConnectionState()
-			return tc, &st, nil
-		})
+		c.SetTLSHandshake(hsFn)
+	case "fp":
+		c.SetTLSFingerprintChrome()
+	case "fp>handshake":
+		c.SetTLSFingerprintChrome()
+		c.SetTLSHandshake(hsFn)
+	case "handshake>fp":
+		c.SetTLSHandshake(hsFn)
+		c.SetTLSFingerprintChrome()
+	case "fp>dialtls":
+		c.SetTLSFingerprintChrome()
+		c.SetDialTLS(dialFn)
 	}
 }
 
@@ -438,7 +511,7 @@ func c12Request(c *Client, o *c12Origin, cell c12Cell, force string, h3 bool, tc
 		step.panicTx = ptxt
 	} else if err != nil {
 		k := c12ErrKind(err)
-		if cell.custom != "none" && rec.failedNow() {
+		if cell.hasCustom() && rec.failedNow() {
 			// the user's dial/handshake function failed (here: its own verifier rejected)
 			step.impl = "err:other"
 			step.accept = "reject"
@@ -459,18 +532,18 @@ func c12Request(c *Client, o *c12Origin, cell c12Cell, force string, h3 bool, tc
 	}
 	// model line
 	customTok := "fail"
-	if cell.custom != "none" {
+	if cell.hasCustom() {
 		customTok = rec.token()
 	} else if cell.h2c {
 		customTok = "plain" // EnableH2C installs a plain dialer as DialTLSContext
 	}
 	tcpAccept := tcell.accept()
-	if cell.custom != "none" {
+	if cell.customGoverns() {
 		tcpAccept = cell.cTrust == "good"
 	}
 	alpn := c12AlpnChars(o.offer.alpn)
 	sch := cell.scheme
-	step.args = []string{force, c12B(h3), c12B(cell.h2c), c12B(cell.custom == "dialtls" || cell.h2c), c12B(cell.custom == "handshake"), protos,
+	step.args = []string{force, c12B(h3), c12B(cell.h2c), c12B(cell.modelDial() || cell.h2c), c12B(cell.modelHS()), protos,
 		sch, c12B(cell.upgrade), alpn, c12B(tcpAccept), c12B(o.offer.h3), c12B(tcell.accept()), c12B(o.offer.plainH2), customTok,
 		c12B(st.cachedH2), c12B(st.cachedH3), c12B(st.alt)}
 	step.force, step.scheme = force, sch
@@ -499,7 +572,7 @@ func c12Request(c *Client, o *c12Origin, cell c12Cell, force string, h3 bool, tc
 		if cell.scheme == "https" {
 			// which verifier governed the connection that carried it
 			want := tcell.accept()
-			if got != "h3" && cell.custom != "none" {
+			if got != "h3" && cell.customGoverns() {
 				want = cell.cTrust == "good"
 			}
 			if !want && !(got == "h2" && st.cachedH2) && !(got == "h3" && st.cachedH3) {
@@ -511,7 +584,7 @@ func c12Request(c *Client, o *c12Origin, cell c12Cell, force string, h3 bool, tc
 			if got == "h3" && !o.offer.h3 {
 				complain("carried by h3 although the origin has no HTTP/3 listener")
 			}
-			if cell.custom == "none" || got == "h3" {
+			if !cell.hasCustom() || got == "h3" {
 				if tcell.serverName != "" && step.sni != tcell.serverName {
 					complain("ServerName override %q not used: origin saw SNI %q", tcell.serverName, step.sni)
 				}
@@ -524,7 +597,7 @@ func c12Request(c *Client, o *c12Origin, cell c12Cell, force string, h3 bool, tc
 	}
 	if step.impl == "err:tls" && cell.scheme == "https" {
 		want := tcell.accept()
-		if cell.custom != "none" && force != "3" && !(st.alt && h3) {
+		if cell.customGoverns() && force != "3" && !(st.alt && h3) {
 			want = cell.cTrust == "good"
 		}
 		if want {
@@ -533,6 +606,18 @@ func c12Request(c *Client, o *c12Origin, cell c12Cell, force string, h3 bool, tc
 	}
 	if cell.scheme == "http" && !o.offer.plainH2 && (force == "-" || force == "1") && !strings.HasPrefix(step.impl, "ok:") {
 		complain("plain http request failed (%s) although the origin serves HTTP/1.1", step.impl)
+	}
+	// the handshake function set LAST is the one in force (on the original and on every clone)
+	if cell.modelHS() && !cell.modelDial() && rec.wasCalled() {
+		if cell.customGoverns() && !rec.ranCustom() {
+			complain("a TLS handshake was made, but not by the custom handshake function set last (SetTLSHandshake after SetTLSFingerprint)")
+		}
+		if !cell.customGoverns() && cell.custom == "handshake>fp" && rec.ranCustom() {
+			complain("the custom handshake function ran although SetTLSFingerprint replaced it")
+		}
+	}
+	if err == nil && !panicked && len(o.seenFor(path)) == 0 {
+		complain("the response did not come from the origin the URL names (%s never received %s)", o.offer, path)
 	}
 	if force == "3" && tcpDials.Load() != before {
 		complain("HTTP/3 forced but a TCP connection was dialled")
@@ -731,6 +816,7 @@ func c12RunCell(w *c12World, cell c12Cell, dir string) []c12Step {
 			t3.Close()
 		}
 	}
+	c12WrapHandshake(c, rec)
 	st := c12ReqState{}
 	path := fmt.Sprintf("/c%d/s0", id)
 	s0 := c12Request(c, o, cell, cell.force, h3, cell.tls, protos, rec, st, path, &tcpDials)
@@ -744,6 +830,25 @@ func c12RunCell(w *c12World, cell c12Cell, dir string) []c12Step {
 		s1 := c12Request(c, o, cell, cell.force, h3, cell.tls, protos, rec, st, path, &tcpDials)
 		s1.human = cell.String() + fmt.Sprintf(" ; request 2 to %s after Alt-Svc (entry ready=%v)", o.offer.String(), st.alt)
 		steps = append(steps, s1)
+		// Alt-Svc state is per ORIGIN: the same client now asks other origins on the same host
+		// (other ports) that never advertised anything — nothing learned for A may apply to them.
+		if strings.HasPrefix(s1.impl, "ok:") {
+			// once more on A: with the entry confirmed (moved from pending into the jar)
+			path = fmt.Sprintf("/c%d/s2", id)
+			st2 := c12ReqState{cachedH2: st.cachedH2, cachedH3: s1.impl == "ok:h3", alt: st.alt}
+			s2 := c12Request(c, o, cell, cell.force, h3, cell.tls, protos, rec, st2, path, &tcpDials)
+			s2.human = cell.String() + " ; request 3 to the same origin (entry confirmed)"
+			steps = append(steps, s2)
+			for bi, bname := range []string{"h2h1", "all", "h1"} {
+				b := w.origins[bname][int(id)%2]
+				bcell := cell
+				bcell.offer = bname
+				path = fmt.Sprintf("/c%d/b%d", id, bi)
+				sb := c12Request(c, b, bcell, cell.force, h3, cell.tls, protos, rec, c12ReqState{}, path, &tcpDials)
+				sb.human = cell.String() + fmt.Sprintf(" ; then request to ANOTHER origin on the same host: %s (never advertised Alt-Svc)", b.offer.String())
+				steps = append(steps, sb)
+			}
+		}
 	}
 	if t := c.GetTransport(); t != nil {
 		t.CloseIdleConnections()
@@ -835,7 +940,7 @@ func c12RunParallel(w *c12World, cells []c12Cell, dir string, workers int) [][]c
 // judged by the Go-side property oracle.
 func TestVerif_C12_e2e(t *testing.T) {
 	s := verifh.New(t, "C12", "c12e2e",
-		"matrix {force h1,h2,h3,none (+EnableHTTP3)} x origin {h1-only TLS, h2+h1 ALPN, TLS without ALPN, h2+h1+h3, h1+h3, h2+h1+h3+Alt-Svc, client-cert-requiring h2+h1+h3, clear-text h1, h2c} x TLS {default roots, private root, wrong root, InsecureSkipVerify, insecure+wrong root, ServerName override ok/mismatch, client cert ok/none/wrong CA/insecure} x how {SetRootCertFromString, SetRootCertsFromFile, SetTLSClientConfig with/without NextProtos, GetTLSClientConfig mutation} x {fresh, clone, settings+force changed after a first request to a twin origin, settings changed (in place / replaced) after two first requests of the same version to the SAME origin followed by CloseIdleConnections} x {none, SetDialTLS, SetTLSHandshake (own trust good/wrong, own ALPN)} + websocket-upgrade requests + h2c on/off; quick = greedy pairwise-covering subset topped up with seeded random cells, thorough = full product; per request: Response.Proto, protocol/SNI/client certificate seen by the origin, error kind; non-trivial = every request (distinct by model line)")
+		"matrix {force h1,h2,h3,none (+EnableHTTP3)} x origin {h1-only TLS, h2+h1 ALPN, TLS without ALPN, h2+h1+h3, h1+h3, h2+h1+h3+Alt-Svc, client-cert-requiring h2+h1+h3, clear-text h1, h2c} x TLS {default roots, private root, wrong root, InsecureSkipVerify, insecure+wrong root, ServerName override ok/mismatch, client cert ok/none/wrong CA/insecure} x how {SetRootCertFromString, SetRootCertsFromFile, SetTLSClientConfig with/without NextProtos, GetTLSClientConfig mutation} x {fresh, clone, settings+force changed after a first request to a twin origin, settings changed (in place / replaced) after two first requests of the same version to the SAME origin followed by CloseIdleConnections} x {none, SetDialTLS, SetTLSHandshake (own trust good/wrong, own ALPN), SetTLSFingerprintChrome, fingerprint then SetTLSHandshake, SetTLSHandshake then fingerprint, fingerprint then SetDialTLS}; after an Alt-Svc upgrade the same client also asks three OTHER origins on the same host + websocket-upgrade requests + h2c on/off; quick = greedy pairwise-covering subset topped up with seeded random cells, thorough = full product; per request: Response.Proto, protocol/SNI/client certificate seen by the origin, error kind; non-trivial = every request (distinct by model line)")
 	w, err := c12StartWorld()
 	if err != nil {
 		t.Fatalf("infrastructure: %v", err)
@@ -864,6 +969,12 @@ func TestVerif_C12_e2e(t *testing.T) {
 		for _, d := range cell.dims() {
 			c12Count(s, d)
 		}
+		if cell.kind == "clone" && cell.custom == "fp>handshake" {
+			c12Count(s, "clone&fp>handshake")
+		}
+		if len(steps) > 3 {
+			c12Count(s, "other-origin-after-altsvc")
+		}
 		for _, st := range steps {
 			c12Count(s, "impl:"+st.impl)
 			if st.panicTx != "" {
@@ -877,7 +988,7 @@ func TestVerif_C12_e2e(t *testing.T) {
 			s.Case(st.line, st.impl, st.propOK, st.class, true, human)
 		}
 	}
-	for _, must := range []string{"impl:ok:h1", "impl:ok:h2", "impl:ok:h3", "impl:err:tls", "impl:err:other", "kind=clone", "kind=changed", "kind=changed-same", "custom=dialtls", "custom=handshake", "offer=alt", "offer=mtls", "offer=h2c", "force=3"} {
+	for _, must := range []string{"impl:ok:h1", "impl:ok:h2", "impl:ok:h3", "impl:err:tls", "impl:err:other", "kind=clone", "kind=changed", "kind=changed-same", "custom=dialtls", "custom=handshake", "custom=fp", "custom=fp>handshake", "custom=handshake>fp", "custom=fp>dialtls", "clone&fp>handshake", "other-origin-after-altsvc", "offer=alt", "offer=mtls", "offer=h2c", "force=3"} {
 		if c12Hist[s][must] == 0 && !(must == "impl:ok:h3" && c12Hist[s]["impl:err:tls"] > 0) {
 			t.Errorf("matrix never reached bucket %q", must)
 		}
@@ -983,7 +1094,7 @@ func TestVerif_C12_uniform(t *testing.T) {
 // afterwards.
 func TestVerif_C12_seq(t *testing.T) {
 	s := verifh.New(t, "C12", "c12seq",
-		"designed sequences x TLS {private root, insecure} x {original, clone after learning}: (a) un-forced+HTTP/3 learns Alt-Svc over h2, then EnableForceHTTP1 / EnableForceHTTP2 / DisableHTTP3 / stays un-forced -> next request; (b) https warm-up, clear-text origin advertising Alt-Svc, next clear-text request; (c) EnableH2C then an https request (force none / h2); (d) EnableForceHTTP3 then DisableHTTP3; each request compared with Dispatch.route and judged by the oracle")
+		"designed sequences x TLS {private root, insecure} x {original, clone after learning}: (a) un-forced+HTTP/3 learns Alt-Svc over h2, then EnableForceHTTP1 / EnableForceHTTP2 / DisableHTTP3 / stays un-forced -> next request; (b) https warm-up, clear-text origin advertising Alt-Svc, next clear-text request; (c) EnableH2C then an https request (force none / h2); (d) EnableForceHTTP3 then DisableHTTP3; (e) Alt-Svc learned and confirmed for origin A (3 requests), then one request each to six OTHER origins on the same host / other ports (h2+h1, h1, no ALPN, h2+h1+h3, h1+h3, A's advertising twin); each request compared with Dispatch.route and judged by the oracle")
 	w, err := c12StartWorld()
 	if err != nil {
 		t.Fatalf("infrastructure: %v", err)
@@ -1088,6 +1199,49 @@ func TestVerif_C12_seq(t *testing.T) {
 				c.GetTransport().CloseIdleConnections()
 			}
 		}
+		// (e) Alt-Svc state is per origin: learn + confirm for origin A, then ask origins B on the
+		// same host (other ports) that never advertised HTTP/3, and A's twin
+		for _, tc := range []c12TLS{c12TLSCells[1], c12TLSCells[3]} {
+			for _, viaClone := range []bool{false} {
+				_ = viaClone
+				a := w.origins["alt"][rep%2]
+				c := C().EnableHTTP3()
+				c12ApplyTLS(c, tc, "helpers-string", dir)
+				id := c12CellSeq.Add(1)
+				rec := &c12CustomRec{}
+				acell := c12Cell{force: "-", h3on: true, offer: "alt", tls: tc, how: "helpers-string", kind: "fresh", custom: "none", scheme: "https"}
+				st := c12ReqState{}
+				okSoFar := true
+				for k := 0; k < 3 && okSoFar; k++ {
+					sa := c12Request(c, a, acell, "-", true, tc, "12", rec, st, fmt.Sprintf("/q%d/a%d", id, k), &noDials)
+					sa.human = fmt.Sprintf("seq(e) tls=%s: request %d to origin A = %s (alt entry ready=%v)", tc.name, k+1, a.offer, st.alt)
+					record(sa)
+					okSoFar = strings.HasPrefix(sa.impl, "ok:")
+					if k == 0 {
+						st.cachedH2 = sa.impl == "ok:h2"
+						st.alt = c12WaitAlt(c.GetTransport(), a.url("https", "/"))
+					} else {
+						st.cachedH3 = st.cachedH3 || sa.impl == "ok:h3"
+					}
+				}
+				if !okSoFar {
+					continue
+				}
+				for bi, bname := range []string{"h2h1", "h1", "noalpn", "all", "h1+h3", "alt"} {
+					b := w.origins[bname][rep%2]
+					if bname == "alt" {
+						b = w.origins[bname][(rep+1)%2] // A's twin: advertises itself, but nothing was learned for it yet
+					}
+					bcell := acell
+					bcell.offer = bname
+					sb := c12Request(c, b, bcell, "-", true, tc, "12", rec, c12ReqState{}, fmt.Sprintf("/q%d/b%d", id, bi), &noDials)
+					sb.human = fmt.Sprintf("seq(e) tls=%s: Alt-Svc h3 confirmed for A (port %d); request to ANOTHER origin on the same host: %s (port %d)", tc.name, a.port, b.offer, b.port)
+					record(sb)
+					c12Count(s, "e:other-origin")
+				}
+				c.GetTransport().CloseIdleConnections()
+			}
+		}
 		// (d) EnableForceHTTP3 then DisableHTTP3
 		{
 			o := w.origins["all"][rep%2]
@@ -1143,7 +1297,7 @@ func TestVerif_C12_seq(t *testing.T) {
 	for _, st := range pending {
 		flush(*st)
 	}
-	for _, must := range []string{"a:force1", "a:force2", "b:plain-altsvc", "c:h2c-https", "d:force3-disable", "alt-entry-ready"} {
+	for _, must := range []string{"a:force1", "a:force2", "b:plain-altsvc", "c:h2c-https", "d:force3-disable", "alt-entry-ready", "e:other-origin"} {
 		if c12Hist[s][must] == 0 {
 			t.Errorf("never reached bucket %q", must)
 		}
